@@ -55,6 +55,7 @@ func (x *Exec) execInstr(fr *Frame, b *ssa.BasicBlock, st *State, in ssa.Instruc
 	case *ssa.FieldAddr:
 		p := x.val(fr, in.X)
 		x.checkNonNil(fr, st, p, in.Pos(), "field "+fieldName(in.X.Type().(*types.Pointer).Elem(), in.Field))
+		x.guardedFieldAccess(fr, st, p, in.X.Type().(*types.Pointer).Elem(), in.Field, in.Pos())
 		np := *p.P
 		np.Path = append(append([]PathElem(nil), p.P.Path...), PathElem{Field: in.Field})
 		if np.Cell == nil && np.ObjT == nil {
@@ -136,18 +137,60 @@ func (x *Exec) execInstr(fr *Frame, b *ssa.BasicBlock, st *State, in ssa.Instruc
 			fr.regs[in] = r
 		}
 	case *ssa.Defer:
+		conditional := false
 		if b != fr.fn.Blocks[0] {
-			// defers in non-entry blocks: supported only when the block dominates every return
 			for _, ob := range fr.fn.Blocks {
 				if len(ob.Instrs) > 0 {
 					if _, isRet := ob.Instrs[len(ob.Instrs)-1].(*ssa.Return); isRet && !b.Dominates(ob) {
-						failf("conditional defer")
+						conditional = true
 					}
 				}
 			}
 		}
-		fr.defers = append(fr.defers, in)
+		if !conditional {
+			fr.defers = append(fr.defers, in)
+			break
+		}
+		// a defer statement that some returns do not pass: a ghost flag records, per path,
+		// whether it was executed; the deferred call runs at function exit under that flag.
+		// Only the simple shape (a single such defer, no others) is supported.
+		if fr.condDefer != nil && fr.condDefer != in {
+			failf("more than one conditional defer")
+		}
+		if len(fr.defers) > 0 {
+			failf("conditional defer mixed with other defers")
+		}
+		if fr.condDefer == nil {
+			x.cellID++
+			fr.condDefer = in
+			fr.condDeferCell = &Cell{Name: "deferred$" + fr.fn.Name(), T: tBool, ID: x.cellID}
+		}
+		st.cells[fr.condDeferCell] = scalar(tBool, True)
+		x.cellsW[fr.condDeferCell] = true
 	case *ssa.RunDefers:
+		if fr.condDefer != nil {
+			if len(fr.defers) > 0 {
+				failf("conditional defer mixed with other defers")
+			}
+			flag := False
+			if v, ok := st.cells[fr.condDeferCell]; ok {
+				flag = v.Term
+			}
+			switch {
+			case flag.IsFalse():
+			case flag.IsTrue():
+				x.call(fr, st, fr.condDefer, fr.condDefer.Pos())
+			default:
+				s1 := st.clone()
+				s1.guard = And(st.guard, flag)
+				x.call(fr, s1, fr.condDefer, fr.condDefer.Pos())
+				s2 := st.clone()
+				s2.guard = And(st.guard, Not(flag))
+				m := x.mergeStates([]*State{s1, s2})
+				*st = *m
+			}
+			break
+		}
 		for i := len(fr.defers) - 1; i >= 0; i-- {
 			x.call(fr, st, fr.defers[i], fr.defers[i].Pos())
 		}
